@@ -21,6 +21,7 @@ CONSTANTS
 
 VARIABLES
   scen,      \* the scenario: [req, mrep, rver, code, atyp, alen, napp, failAt]
+  sync,      \* the transport reports the loss of the connection from inside loseConnection() (in-memory transports, tests)
   delivered, \* bytes of the stream handed to the client so far
   gone,      \* the transport has been disconnected
   \* mechanism (socks.py)
@@ -35,7 +36,7 @@ VARIABLES
   appLost,   \* application protocol told about the disconnect
   exc        \* an exception escaped dataReceived
 
-vars == <<scen, delivered, gone, st, buf, sentReq, app, appN, appW, done, closed, appLost, exc>>
+vars == <<scen, sync, delivered, gone, st, buf, sentReq, app, appN, appW, done, closed, appLost, exc>>
 
 RLen(s) == CASE s.atyp = "v4" -> 10 [] s.atyp = "v6" -> 22 [] s.atyp = "dom" -> 7 + s.alen [] OTHER -> 10
 ReplyEnd(s) == 2 + RLen(s)
@@ -68,7 +69,7 @@ InitRest ==
   /\ app = FALSE /\ appN = 0 /\ appW = 0 /\ done = Pending
   /\ closed = FALSE /\ appLost = FALSE /\ exc = FALSE
 
-Init == scen \in Scenarios /\ InitRest
+Init == scen \in Scenarios /\ sync \in BOOLEAN /\ InitRest
 
 (* One pass of the machine over the buffer: r is a record of the mechanism  *)
 (* variables; Process is iterated until nothing changes (the code re-enters *)
@@ -108,9 +109,10 @@ Deliver(n) ==
        /\ done' = r.done /\ closed' = r.closed
        /\ exc' = r.exc
        \* an exception out of dataReceived makes Twisted drop the connection
-       /\ gone' = (r.exc /\ ~exc)
+       \* ... and so does, on a transport that reports the loss from inside loseConnection (sync), the client's own hanging up
+       /\ gone' = ((r.exc /\ ~exc) \/ (sync /\ r.closed /\ ~closed))
   /\ delivered' = delivered + n
-  /\ UNCHANGED <<scen, appW, appLost>>
+  /\ UNCHANGED <<scen, sync, appW, appLost>>
 
 \* As Deliver(n), where these n bytes complete a successful CONNECT and the application's "connected" callback,
 \* while it runs, makes k more bytes arrive (it writes its first request over an in-memory transport whose peer
@@ -124,7 +126,7 @@ DeliverNested(n, k) ==
        /\ st' = r.st /\ buf' = r.buf /\ sentReq' = r.sentReq /\ app' = r.app /\ appN' = r.appN + k
        /\ done' = r.done /\ closed' = r.closed /\ exc' = r.exc /\ gone' = gone
   /\ delivered' = delivered + n + k
-  /\ UNCHANGED <<scen, appW, appLost>>
+  /\ UNCHANGED <<scen, sync, appW, appLost>>
 
 \* As Deliver(n) while relaying, where the application's dataReceived, while it is handed these n bytes, makes k more
 \* bytes arrive (it answers over an in-memory or loop-back transport whose peer replies at once): they are the
@@ -133,27 +135,27 @@ DeliverReentrant(n, k) ==
   /\ ~gone /\ n >= 1 /\ k >= 1 /\ delivered + n + k <= Total(scen)
   /\ st = "relaying" /\ app /\ buf = 0
   /\ appN' = appN + n + k /\ delivered' = delivered + n + k
-  /\ UNCHANGED <<scen, gone, st, buf, sentReq, app, appW, done, closed, appLost, exc>>
+  /\ UNCHANGED <<scen, sync, gone, st, buf, sentReq, app, appW, done, closed, appLost, exc>>
 
-Disconnect ==
-  /\ ~gone
+Loss ==
   /\ gone' = TRUE
   /\ CASE st = "sent_version" -> st' = "unconnected" /\ done' = FireM(done, "err", "socks") /\ UNCHANGED appLost
        [] st = "sent_request" -> st' = "abort" /\ done' = FireM(done, "err", "socks") /\ UNCHANGED appLost
        [] st = "relaying"     -> st' = "done" /\ appLost' = TRUE /\ UNCHANGED done
        [] OTHER               -> UNCHANGED <<st, done, appLost>>
-  /\ UNCHANGED <<scen, delivered, buf, sentReq, app, appN, appW, closed, exc>>
+  /\ UNCHANGED <<scen, sync, delivered, buf, sentReq, app, appN, appW, closed, exc>>
+Disconnect == ~gone /\ Loss
 
 AppWrite ==
   /\ app /\ ~gone
   /\ appW' = appW + 1
-  /\ UNCHANGED <<scen, delivered, gone, st, buf, sentReq, app, appN, done, closed, appLost, exc>>
+  /\ UNCHANGED <<scen, sync, delivered, gone, st, buf, sentReq, app, appN, done, closed, appLost, exc>>
 
 \* the application asks for a graceful close of its transport; what still arrives before the connection
 \* is gone is relayed all the same
 AppClose ==
   /\ app /\ ~gone
-  /\ UNCHANGED vars
+  /\ IF sync THEN Loss ELSE UNCHANGED vars        \* (a transport that reports the loss at once: the connection is gone with that)
 
 Next ==
   \/ AppClose
